@@ -29,6 +29,8 @@ type lookupFacts struct {
 	valueOfs  []Event
 }
 
+var optGetOpts *ssa.Function // set by FindAnchors
+
 func collectLookup(sm *Summary) lookupFacts {
 	var lf lookupFacts
 	evs := sm.Events()
@@ -47,7 +49,7 @@ func collectLookup(sm *Summary) lookupFacts {
 					lf.isNF = &e
 				}
 			}
-		case ev.Callee != nil && ev.Callee.Name() == "getOpts" && ev.Callee.Pkg != nil && ev.Callee.Pkg.Pkg.Path() == modPath:
+		case ev.Callee != nil && optGetOpts != nil && ev.Callee == optGetOpts:
 			e := ev
 			lf.getOpts = &e
 		case isCallTo(ev.Callee, "reflect", "ValueOf"):
@@ -120,8 +122,8 @@ func checkValueLookup(r *Run, prog *Program, a *Anchors, pfx string) {
 			}
 			tn := getPath(d, []string{"Config", "TagName"})
 			hk := getPath(d, []string{"Config", "ValueTransformationHook"})
-			wantTN := (&Sym{K: sField, A: optsSym, Str: "withTagName"}).Key()
-			wantHK := (&Sym{K: sField, A: optsSym, Str: "withHookFn"}).Key()
+			wantTN := (&Sym{K: sField, A: optsSym, Str: optField(prog, "WithTagName")}).Key()
+			wantHK := (&Sym{K: sField, A: optsSym, Str: optField(prog, "WithHookFn")}).Key()
 			if tn == nil || tn.Key() != wantTN {
 				return false, "Config.TagName is " + tn.Key() + ", expected the evaluator's tag name option"
 			}
@@ -141,7 +143,7 @@ func checkValueLookup(r *Run, prog *Program, a *Anchors, pfx string) {
 			r.Check(pfx+".lookup", "lookup-error-untested", pos, false, "a return is reached without testing the lookup's error"+trail)
 			continue
 		}
-		unknownF := &Sym{K: sField, A: optsSym, Str: "withUnknown"}
+		unknownF := &Sym{K: sField, A: optsSym, Str: optField(prog, "WithUnknownValue")}
 		switch {
 		case errNil:
 			seenClasses["found"]++
@@ -256,7 +258,7 @@ func checkValueLookup(r *Run, prog *Program, a *Anchors, pfx string) {
 	}
 	// the unknown value is read nowhere else on the evaluation path
 	for _, fa := range prog.FieldAccesses(prog.ModuleFuncs()) {
-		if fa.Struct.Obj().Name() == "options" && fa.Struct.Obj().Pkg().Path() == modPath && fa.Field == "withUnknown" && fa.Kind == "read" {
+		if fa.Struct == optRoles(prog).optionsT && fa.Field == optField(prog, "WithUnknownValue") && fa.Kind == "read" {
 			okR := fa.Fn == fn || fa.Fn == a.CreateEv
 			r.Check(pfx+".unknown-read-sites", fa.Fn.Name()+":read:withUnknown", prog.pos(fa.Instr.Pos()), okR, "the unknown value is read outside the ErrNotFound branch of the value lookup (and outside CreateEvaluator's copy)")
 		}
